@@ -45,3 +45,24 @@ Theorem C10_lookup_answers_from_the_slots : forall st n st' r, DirProofs.coh st 
   (forall i k, r = Some (i, k) <-> DirProofs.at_ (DirModel.d_slots st) k (n, i)).
 Proof. exact DirProofs.lookup_name_spec. Qed.
 Print Assumptions C10_lookup_answers_from_the_slots.
+
+(* IC (Model/IcacheModel.v, Proofs/IcacheProofs.v) — the inode cache under transactions (fstxn, cache, WriteInode):
+   for every interleaving of transactions that lock, edit in place, log, commit and abort inodes, and of evictions,
+   a cached inode that no transaction holds equals the disk's; hence what the running server serves for an inode
+   nobody holds is what a server restarted from its disk serves.  The model assumes the discipline that a committing
+   transaction has logged every inode it edited (guard `all_clean`); R-cache compares every cached inode with the
+   disk bytes at every quiescent checkpoint of the real server, which is where a missing WriteInode shows. *)
+From V Require Model.IcacheModel Proofs.IcacheProofs.
+Theorem C10_unlocked_cached_inodes_are_the_disk's :
+  forall (V : Type) (E : EqDecision V) (dflt : V) (d : gmap N V) (os : list IcacheModel.icop),
+  IcacheProofs.icinv dflt (IcacheModel.icruns dflt (IcacheModel.ic_init d) os).
+Proof. exact @IcacheProofs.icinv_reachable. Qed.
+Print Assumptions C10_unlocked_cached_inodes_are_the_disk's.
+
+Theorem C10_running_equals_restarted :
+  forall (V : Type) (E : EqDecision V) (dflt : V) (d : gmap N V) (os : list IcacheModel.icop) (i : N),
+  let s := IcacheModel.icruns dflt (IcacheModel.ic_init d) os in
+  IcacheModel.c_owner s !! i = None ->
+  IcacheProofs.served dflt s i = IcacheProofs.served dflt (IcacheModel.ic_init (IcacheModel.c_disk s)) i.
+Proof. exact @IcacheProofs.running_equals_restarted. Qed.
+Print Assumptions C10_running_equals_restarted.
